@@ -283,3 +283,83 @@ func HarnessC05LateResponse() {
 	vAssert(len(c.processingCmds) == 0, "c05:failed-send-releases-the-identifier")
 	vAssert(t.tailSent && len(c.inMsgChan) == 1, "c05:receiver-survives-a-response-nobody-waits-for")
 }
+
+// vhOverlapTransport: the peer answers the first request at once, while the local write of that request
+// has not returned yet (the application, seeing nothing, issues the identifier again meanwhile).
+type vhOverlapTransport struct {
+	vhRespTransport
+	sends    int
+	gate0    chan struct{}
+	secondGo chan struct{}
+}
+
+func (t *vhOverlapTransport) Send(ctx context.Context, e envelope) error {
+	err := t.vhRespTransport.Send(ctx, e)
+	t.sends++
+	if t.sends == 1 {
+		close(t.gate0)
+		close(t.secondGo)
+		vQuiesce()
+	}
+	return err
+}
+
+func (t *vhOverlapTransport) Receive(ctx context.Context) (envelope, error) {
+	if t.pos == 0 {
+		select {
+		case <-t.gate0:
+		case <-ctx.Done():
+			return nil, ctx.Err()
+		}
+	}
+	return t.vhRespTransport.Receive(ctx)
+}
+
+// HarnessC05Overlap: an identifier is used again as soon as the registry accepts it - here while the
+// first call has been answered but has not returned yet (its write is still returning). Whatever the
+// registry decides for the second call (reject it, or accept it), an accepted call whose response
+// arrives while it waits completes with that response; the first call is not disturbed.
+func HarnessC05Overlap() {
+	t := &vhOverlapTransport{gate0: make(chan struct{}), secondGo: make(chan struct{})}
+	t.enc, t.comp = SessionEncryptionNone, SessionCompressionNone
+	r1 := &ResponseCommand{Command: Command{Envelope: Envelope{ID: "x"}, Method: CommandMethodGet}, Status: CommandStatusSuccess}
+	r2 := &ResponseCommand{Command: Command{Envelope: Envelope{ID: "x"}, Method: CommandMethodGet}, Status: CommandStatusSuccess}
+	t.script = []*ResponseCommand{r1, r2}
+	t.gateAt = 1
+	t.gate = make(chan struct{})
+	c := newChannel(t, 2)
+	c.state = SessionStateEstablished
+	c.startRcv.Do(c.startReceiver)
+	first, second := &vhCmdResult{}, &vhCmdResult{}
+	go func() {
+		<-t.secondGo
+		for k := 0; k < 3 && !second.done; k++ {
+			ctx, cancel := context.WithTimeout(context.Background(), 300*time.Millisecond)
+			before := len(t.sent)
+			resp, err := c.ProcessCommand(ctx, &RequestCommand{Command: Command{Envelope: Envelope{ID: "x"}, Method: CommandMethodGet}})
+			cancel()
+			if len(t.sent) > before {
+				// accepted and written to the wire: this is the call the second answer belongs to
+				second.resp, second.err, second.done = resp, err, true
+			} else {
+				time.Sleep(10 * time.Millisecond)
+			}
+		}
+	}()
+	ctx, cancel := context.WithTimeout(context.Background(), time.Second)
+	defer cancel()
+	first.resp, first.err = c.ProcessCommand(ctx, &RequestCommand{Command: Command{Envelope: Envelope{ID: "x"}, Method: CommandMethodGet}})
+	first.done = true
+	vQuiesce()
+	if len(t.sent) >= 2 {
+		// the peer answers the second request while it waits
+		close(t.gate)
+	}
+	vSettle()
+	vReach("c05:overlap-settled")
+	vAssert(first.err == nil && first.resp == r1, "c05:first-request-completes-with-its-response")
+	if second.done {
+		vReach("c05:second-request-accepted")
+		vAssert(second.err == nil && second.resp == r2, "c05:accepted-request-completes-with-the-response-that-arrived-while-it-waited")
+	}
+}
